@@ -264,7 +264,13 @@ where
 {
     let mut last_position = inherited_position;
     if !table.is_dotted() {
-        let position = table.position().unwrap_or(inherited_position);
+        // The root has no header, so its key/value pairs have to come first wherever the table
+        // once stood (e.g. a sub-table of another document turned into a document of its own)
+        let position = if path.is_empty() {
+            inherited_position
+        } else {
+            table.position().unwrap_or(inherited_position)
+        };
         callback(position, table, path, is_array_of_tables)?;
         last_position = position;
     }
